@@ -87,9 +87,9 @@ def _add_type_var_attr_and_method_to_class(cls: C) -> None:
         if is_instance_of_generic_class(instance=self):
             type_vars_fifo = getattr(self, TYPE_VAR_ATTR_NAME, dict())
             type_vars_generics = check_instance_of_generic_class_and_get_type_vars(instance=self)
-            setattr(self, TYPE_VAR_ATTR_NAME, {**type_vars_fifo, **type_vars_generics, **t_vars})
+            object.__setattr__(self, TYPE_VAR_ATTR_NAME, {**type_vars_fifo, **type_vars_generics, **t_vars})
         else:
-            setattr(self, TYPE_VAR_ATTR_NAME, t_vars)
+            object.__setattr__(self, TYPE_VAR_ATTR_NAME, t_vars)  # not setattr(): the class may be frozen or define a (checked) __setattr__
 
         return getattr(self, TYPE_VAR_ATTR_NAME)
 
